@@ -3,7 +3,8 @@
     [k] = WORD_BYTES (8: 64-bit words, 4: force_bits="32", 2: 16-bit), word lists are little-endian
     over w = 8k bits, bytes are words of size 8 ([sle_value = value 8]). *)
 From Dashu Require Import Base.Prelude Base.Words Int.BitsWords Int.RingAdd Int.RingMul.
-From Dashu Require Import Serde.WireModel Serde.WireProofs Serde.CfgValueSpec Serde.CfgValueProofs Serde.WordSizeCorollaries.
+From Dashu Require Import Float.RoundSpec Float.Model.
+From Dashu Require Import Serde.WireModel Serde.WireProofs Serde.CfgValueSpec Serde.CfgValueProofs Serde.WordSizeCorollaries Serde.FloatToIeeeAsis.
 From DashuGen Require Import Params.
 Open Scope Z_scope.
 
@@ -223,3 +224,22 @@ Print Assumptions C19_root_certificate_unique.
 Theorem C19_ilog_certificate_unique : forall x b e e', 1 < b -> cv_ilog_ok x b e = true -> cv_ilog_ok x b e' = true -> e = e'.
 Proof. exact cv_ilog_ok_unique. Qed.
 Print Assumptions C19_ilog_certificate_unique.
+
+(** ---- debug assertions: the assertion of into_f64_internal / into_f32_internal is NOT a theorem
+         (open finding F06: debug builds panic, release builds round a second time); outside the
+         class the debug and the release build agree *)
+Theorem C19_to_f64_debug_assert_refuted :
+  exists a, conv_div_route 53 MHalfEven 10 4899 (-7) = Ok a /\ handed_bits a = 54 /\
+            into_ieee_asis true 53 a = Panic Undocumented /\ into_ieee_asis false 53 a = Ok a.
+Proof. exact to_f64_debug_assert_refuted. Qed.
+Print Assumptions C19_to_f64_debug_assert_refuted.
+
+Theorem C19_to_f32_debug_assert_refuted :
+  exists a, conv_div_route 24 MZero 10 12 (-1) = Ok a /\ handed_bits a = 25 /\
+            into_ieee_asis true 24 a = Panic Undocumented /\ into_ieee_asis false 24 a = Ok a.
+Proof. exact to_f32_debug_assert_refuted. Qed.
+Print Assumptions C19_to_f32_debug_assert_refuted.
+
+Theorem C19_debug_release_agree_outside_class : forall p a, wide p a = false -> into_ieee_asis true p a = into_ieee_asis false p a.
+Proof. exact into_ieee_debug_release_agree. Qed.
+Print Assumptions C19_debug_release_agree_outside_class.
